@@ -227,9 +227,16 @@ pub fn c08_families(tier: &str) -> Vec<Family> {
         v.push(fam_hist(US, 2, "w12", &ORD_ONE));
         v.push(fam_hist(US, 3, "w12", &ORD_ONE));
         v.push(fam(US, 3, "wtiny", &ORD_ONE));
-        v.push(fam(DS, 3, "w123", &ORD_ONE));
+        // three-level weight alphabets on 3-node digraphs, quick: graphs with at most 3 edges
+        for wa in ["w123", "wf32"] {
+            let mut f = fam(DS, 3, wa, &ORD_ONE);
+            f.max_edges = 3;
+            v.push(f);
+        }
     } else {
         v.push(fam(DS, 3, "w123", &ORD_ALL));
+        v.push(fam(DS, 3, "wf32", &ORD_TWO));
+        v.push(fam(US, 3, "wf32", &ORD_TWO));
         v.extend(route_small("w12", true));
         v.extend(hist_small("w12", false));
         v.push(fam(US, 3, "wtiny", &ORD_ONE));
@@ -277,10 +284,10 @@ pub fn run(tier: &str, rec: &Recorder) -> RunOutput {
     let deadline = start + Duration::from_secs_f64(wall_cap_s(tier));
     let stats = E2Stats::new();
     let seed = std::env::var("VERIF_SEED").ok().and_then(|s| s.parse().ok()).unwrap_or(0);
-    for f in c08_families(tier) {
-        let modes = modes_for(&f);
-        for_each_graph(&f, seed, deadline, &stats, |b, c| check_graph_c08(b, rec, c, &modes));
-    }
+    for_each_family(&c08_families(tier), |f| {
+        let modes = modes_for(f);
+        for_each_graph(f, seed, deadline, &stats, |b, c| check_graph_c08(b, rec, c, &modes));
+    });
     fill_e2_coverage(&mut out, &stats);
     out.set("traces_validated_against_impl", out.get("transitions"));
     out.set("distinct_nontrivial", out.get("calls_with_cutoff"));
